@@ -313,7 +313,7 @@ def _timer_schedule(rng, res, N, M, mode):
     elif mode == "ka_only":
         T = rng.randint(8, 14) * N
     else:
-        T = M + rng.randint(2500, 6000)
+        T = M + rng.randint(4000, 6000)
     rollover = 1 << (N - 1).bit_length() if N > 1 else 2
     tx, t = [], rng.randint(3, 8)
     while t < T:
@@ -343,8 +343,10 @@ def _timer_schedule(rng, res, N, M, mode):
                 g = rng.randint(1, 1000)
             else:
                 g = M + rng.choice(near)
-                T = t + g + 40
                 res.bin({-1: "tm_rx_gap_M_minus_1", 0: "tm_rx_gap_M", 1: "tm_rx_gap_M_plus_1"}.get(g - M, "tm_rx_gap_near_M"))
+                rx[t + g] = rng.choice(["lcr", "pr"])
+                T = t + g + 40
+                break
         elif r < 0.2:
             g = rng.randint(1, 50)
         elif r < 0.65:
